@@ -3,7 +3,8 @@
    configuration, every behaviour of the modelled third-party code (RSA, serde), every
    adapter result and latency, every inbox of client frames and every timing. *)
 From Passage Require Import Lib.Bytes Codec.Desc Gen.PacketsGen Conn.Types Conn.Prog Conn.Sem1 Conn.Sem2
-  Conn.Monitor Conn.MonitorProofs Conn.Monitor2Proofs Conn.Order Conn.OrderProofs Conn.Checks Conn.Walk_C03 Adapters.Locale Adapters.LocaleProofs.
+  Conn.Monitor Conn.MonitorProofs Conn.Monitor2Proofs Conn.Order Conn.OrderProofs Conn.Checks Conn.Walk_C03 Adapters.Locale Adapters.LocaleProofs
+  Conn.TraceLib Conn.C06Corollaries Conn.C03Corollaries.
 
 Theorem C03_walk : forall o cfg, safe (step_with chk_c03) m_init (listen o cfg).
 Proof. exact listen_c03_safe. Qed.
@@ -49,6 +50,136 @@ Theorem C03_every_event_checked_bytes : forall o cfg e segs pre ev post,
     (internal_at (q st) ev = true \/ exists q', delta (q st) ev = Some q' /\ chk_c03 st ev = true).
 Proof. intros o cfg e segs pre ev post H. eapply accepted_event_checked; [apply c03_accepts2 | exact H]. Qed.
 
+(* ======================================================================
+   In plain terms: corollaries of the accepted monitor (Conn/C03Corollaries.v), each for
+   every frame-level run (M1) and, suffix _bytes, every byte-level run (M2).
+   ====================================================================== *)
+
+(* the vocabulary of the statements below (definitions unfolded) *)
+Theorem C03_defs :
+  (forall l, ends l <-> l = [] \/ exists o, l = [TEnd o])
+  /\ (forall l, ends_badly l <-> l = [] \/ exists o, l = [TEnd o] /\ o <> OOk)
+  /\ (forall e, select_result e = match e with TRes (CSelect _ _ _ _ _ _ _) r => Some r | _ => None end)
+  /\ (forall b, locale_of_frame b = match dec_of configuration_sb_ClientInformationPacket b with
+                                    | Some (VB loc :: _) => Some loc | _ => None end)
+  /\ (forall pre b, client_info pre b <->
+        exists pre0 p vs mid pre2, pre = pre0 ++ TSend p vs :: mid ++ TRecv ci_id b :: pre2
+          /\ is_pkt p login_cb_LoginSuccessPacket = true /\ forall b', ~ In (TRecv ci_id b') mid)
+  /\ (forall A (f : tev -> option A) pre a, latest f pre = Some a <->
+        exists pre1 e pre2, pre = pre1 ++ e :: pre2 /\ f e = Some a /\ forall x, In x pre2 -> f x = None).
+Proof. repeat match goal with |- _ /\ _ => split end; intros; try reflexivity; apply latest_spec. Qed.
+
+(* The filter call directly follows discovery's answer and is given exactly the list it returned *)
+Theorem C03_filter_gets_discovery : forall o cfg e ib pre cl host port proto n u ts post,
+  untime (run1 o cfg e ib) = pre ++ TCall (CFilter cl host port proto n u ts) :: post ->
+  exists pre1, pre = pre1 ++ [TRes CDiscover (RTargets ts)].
+Proof. intros o cfg e ib. exact (filter_gets_discovery _ (c03_accepts o cfg e ib)). Qed.
+Theorem C03_filter_gets_discovery_bytes : forall o cfg e segs pre cl host port proto n u ts post,
+  untime (run2 o cfg e segs) = pre ++ TCall (CFilter cl host port proto n u ts) :: post ->
+  exists pre1, pre = pre1 ++ [TRes CDiscover (RTargets ts)].
+Proof. intros o cfg e segs. exact (filter_gets_discovery _ (c03_accepts2 o cfg e segs)). Qed.
+
+(* The selection call directly follows the filters' answer and is given exactly the list they returned *)
+Theorem C03_select_gets_filter : forall o cfg e ib pre cl host port proto n u ts post,
+  untime (run1 o cfg e ib) = pre ++ TCall (CSelect cl host port proto n u ts) :: post ->
+  exists pre1 cl' host' port' proto' n' u' ts0,
+    pre = pre1 ++ [TRes (CFilter cl' host' port' proto' n' u' ts0) (RTargets ts)].
+Proof. intros o cfg e ib. exact (select_gets_filter _ (c03_accepts o cfg e ib)). Qed.
+Theorem C03_select_gets_filter_bytes : forall o cfg e segs pre cl host port proto n u ts post,
+  untime (run2 o cfg e segs) = pre ++ TCall (CSelect cl host port proto n u ts) :: post ->
+  exists pre1 cl' host' port' proto' n' u' ts0,
+    pre = pre1 ++ [TRes (CFilter cl' host' port' proto' n' u' ts0) (RTargets ts)].
+Proof. intros o cfg e segs. exact (select_gets_filter _ (c03_accepts2 o cfg e segs)). Qed.
+
+(* The Transfer carries exactly the IP text and port of the target the strategy chose *)
+Theorem C03_transfer_is_choice : forall o cfg e ib pre vs post,
+  untime (run1 o cfg e ib) = pre ++ TSend configuration_cb_TransferPacket vs :: post ->
+  exists t, latest select_result pre = Some (RTarget (Some t))
+            /\ vs = [VB (sa_ip (t_addr t)); VZ (sa_port (t_addr t))].
+Proof. intros o cfg e ib. exact (transfer_is_choice _ (c03_accepts o cfg e ib)). Qed.
+Theorem C03_transfer_is_choice_bytes : forall o cfg e segs pre vs post,
+  untime (run2 o cfg e segs) = pre ++ TSend configuration_cb_TransferPacket vs :: post ->
+  exists t, latest select_result pre = Some (RTarget (Some t))
+            /\ vs = [VB (sa_ip (t_addr t)); VZ (sa_port (t_addr t))].
+Proof. intros o cfg e segs. exact (transfer_is_choice _ (c03_accepts2 o cfg e segs)). Qed.
+
+(* The strategy answers at most once per connection ("the latest answer" is the answer) *)
+Theorem C03_select_once : forall o cfg e ib a c1 r1 b c2 r2 c,
+  untime (run1 o cfg e ib) = a ++ TRes c1 r1 :: b ++ TRes c2 r2 :: c ->
+  select_result (TRes c1 r1) <> None -> select_result (TRes c2 r2) <> None -> False.
+Proof. intros o cfg e ib. exact (select_once _ (c03_accepts o cfg e ib)). Qed.
+Theorem C03_select_once_bytes : forall o cfg e segs a c1 r1 b c2 r2 c,
+  untime (run2 o cfg e segs) = a ++ TRes c1 r1 :: b ++ TRes c2 r2 :: c ->
+  select_result (TRes c1 r1) <> None -> select_result (TRes c2 r2) <> None -> False.
+Proof. intros o cfg e segs. exact (select_once _ (c03_accepts2 o cfg e segs)). Qed.
+
+(* The Transfer is the last packet: after it at most the end marker follows (so it is sent at most once) *)
+Theorem C03_transfer_last : forall o cfg e ib pre p vs post,
+  untime (run1 o cfg e ib) = pre ++ TSend p vs :: post -> is_pkt p configuration_cb_TransferPacket = true -> ends post.
+Proof. intros o cfg e ib. exact (transfer_last _ (c03_accepts o cfg e ib)). Qed.
+Theorem C03_transfer_last_bytes : forall o cfg e segs pre p vs post,
+  untime (run2 o cfg e segs) = pre ++ TSend p vs :: post -> is_pkt p configuration_cb_TransferPacket = true -> ends post.
+Proof. intros o cfg e segs. exact (transfer_last _ (c03_accepts2 o cfg e segs)). Qed.
+
+(* No target chosen: all that can follow is the localisation call for the no-target message in the locale
+   the Client Information reported, its answer, a Disconnect with exactly that text, the unsuccessful end
+   (or an earlier unsuccessful end) *)
+Theorem C03_no_target_disconnect : forall o cfg e ib pre cl host port proto n u ts post,
+  untime (run1 o cfg e ib) = pre ++ TRes (CSelect cl host port proto n u ts) (RTarget None) :: post ->
+  ends_badly post \/
+  exists b post1,
+    client_info pre b /\ post = TCall (CLocalize (locale_of_frame b) key_no_target) :: post1 /\
+    (ends_badly post1 \/
+     exists l k r post2, post1 = TRes (CLocalize l k) r :: post2 /\
+       (ends_badly post2 \/
+        exists msg p post3, r = RText msg /\ post2 = TSend p [VB msg] :: post3
+          /\ is_pkt p configuration_cb_DisconnectPacket = true /\ ends_badly post3)).
+Proof. intros o cfg e ib. exact (no_target_then _ (c03_accepts o cfg e ib)). Qed.
+Theorem C03_no_target_disconnect_bytes : forall o cfg e segs pre cl host port proto n u ts post,
+  untime (run2 o cfg e segs) = pre ++ TRes (CSelect cl host port proto n u ts) (RTarget None) :: post ->
+  ends_badly post \/
+  exists b post1,
+    client_info pre b /\ post = TCall (CLocalize (locale_of_frame b) key_no_target) :: post1 /\
+    (ends_badly post1 \/
+     exists l k r post2, post1 = TRes (CLocalize l k) r :: post2 /\
+       (ends_badly post2 \/
+        exists msg p post3, r = RText msg /\ post2 = TSend p [VB msg] :: post3
+          /\ is_pkt p configuration_cb_DisconnectPacket = true /\ ends_badly post3)).
+Proof. intros o cfg e segs. exact (no_target_then _ (c03_accepts2 o cfg e segs)). Qed.
+
+(* and no Transfer is ever sent on such a connection *)
+Theorem C03_no_target_no_transfer : forall o cfg e ib pre cl host port proto n u ts post p vs,
+  untime (run1 o cfg e ib) = pre ++ TRes (CSelect cl host port proto n u ts) (RTarget None) :: post ->
+  In (TSend p vs) (untime (run1 o cfg e ib)) -> is_pkt p configuration_cb_TransferPacket = false.
+Proof. intros o cfg e ib. exact (no_target_no_transfer _ (c03_accepts o cfg e ib)). Qed.
+Theorem C03_no_target_no_transfer_bytes : forall o cfg e segs pre cl host port proto n u ts post p vs,
+  untime (run2 o cfg e segs) = pre ++ TRes (CSelect cl host port proto n u ts) (RTarget None) :: post ->
+  In (TSend p vs) (untime (run2 o cfg e segs)) -> is_pkt p configuration_cb_TransferPacket = false.
+Proof. intros o cfg e segs. exact (no_target_no_transfer _ (c03_accepts2 o cfg e segs)). Qed.
+
+(* Every Disconnect directly follows an answer of the localisation adapter and carries exactly its text *)
+Theorem C03_disconnect_text : forall o cfg e ib pre vs post,
+  untime (run1 o cfg e ib) = pre ++ TSend configuration_cb_DisconnectPacket vs :: post ->
+  exists pre1 l k msg, pre = pre1 ++ [TRes (CLocalize l k) (RText msg)] /\ vs = [VB msg].
+Proof. intros o cfg e ib. exact (disconnect_text _ (c03_accepts o cfg e ib)). Qed.
+Theorem C03_disconnect_text_bytes : forall o cfg e segs pre vs post,
+  untime (run2 o cfg e segs) = pre ++ TSend configuration_cb_DisconnectPacket vs :: post ->
+  exists pre1 l k msg, pre = pre1 ++ [TRes (CLocalize l k) (RText msg)] /\ vs = [VB msg].
+Proof. intros o cfg e segs. exact (disconnect_text _ (c03_accepts2 o cfg e segs)). Qed.
+
+(* If discovery, filtering or selection fails (any answer other than a target list / a choice) the
+   connection ends unsuccessfully right there, and no Transfer is sent anywhere on it *)
+Theorem C03_failure_no_transfer : forall o cfg e ib pre c r post,
+  untime (run1 o cfg e ib) = pre ++ TRes c r :: post ->
+  routing_call c = true -> answer_usable c r = false ->
+  ends_badly post /\ forall p vs, In (TSend p vs) (untime (run1 o cfg e ib)) -> is_pkt p configuration_cb_TransferPacket = false.
+Proof. intros o cfg e ib. intros pre c r post H Hc Hr. split; [exact (failure_ends _ (c03_accepts o cfg e ib) _ _ _ _ H Hc Hr) | intros p vs; exact (failure_no_transfer _ (c03_accepts o cfg e ib) _ _ _ _ p vs H Hc Hr)]. Qed.
+Theorem C03_failure_no_transfer_bytes : forall o cfg e segs pre c r post,
+  untime (run2 o cfg e segs) = pre ++ TRes c r :: post ->
+  routing_call c = true -> answer_usable c r = false ->
+  ends_badly post /\ forall p vs, In (TSend p vs) (untime (run2 o cfg e segs)) -> is_pkt p configuration_cb_TransferPacket = false.
+Proof. intros o cfg e segs. intros pre c r post H Hc Hr. split; [exact (failure_ends _ (c03_accepts2 o cfg e segs) _ _ _ _ H Hc Hr) | intros p vs; exact (failure_no_transfer _ (c03_accepts2 o cfg e segs) _ _ _ _ p vs H Hc Hr)]. Qed.
+
 Print Assumptions C03_walk.
 Print Assumptions C03_locale_candidates.
 Print Assumptions C03_locale_first_table.
@@ -56,3 +187,22 @@ Print Assumptions C03_accepts.
 Print Assumptions C03_every_event_checked.
 Print Assumptions C03_accepts_bytes.
 Print Assumptions C03_every_event_checked_bytes.
+Print Assumptions C03_defs.
+Print Assumptions C03_filter_gets_discovery.
+Print Assumptions C03_filter_gets_discovery_bytes.
+Print Assumptions C03_select_gets_filter.
+Print Assumptions C03_select_gets_filter_bytes.
+Print Assumptions C03_transfer_is_choice.
+Print Assumptions C03_transfer_is_choice_bytes.
+Print Assumptions C03_select_once.
+Print Assumptions C03_select_once_bytes.
+Print Assumptions C03_transfer_last.
+Print Assumptions C03_transfer_last_bytes.
+Print Assumptions C03_no_target_disconnect.
+Print Assumptions C03_no_target_disconnect_bytes.
+Print Assumptions C03_no_target_no_transfer.
+Print Assumptions C03_no_target_no_transfer_bytes.
+Print Assumptions C03_disconnect_text.
+Print Assumptions C03_disconnect_text_bytes.
+Print Assumptions C03_failure_no_transfer.
+Print Assumptions C03_failure_no_transfer_bytes.
